@@ -33,6 +33,8 @@ def run(ctx):
     ctx.rule("R20-4", "every test the tokenizer (parse_line, line_to_cmds) applies to the character it is reading is an "
                       "equality with a character of the escaper's class; a character-class predicate (is_whitespace, ...) "
                       "must not accept a character outside that class")
+    ctx.rule("R20-5", "the word the completion replaces starts at a byte offset: escaped_word_start converts its character "
+                      "counter with a correction that accounts for every character not known to be ASCII")
     ctx.rule("R20-2", "inside an open quote q, wrap_sep_string(q, name) escapes every character special inside q")
     ctx.rule("R20-3", "candidates: entries whose name starts_with the typed prefix; non-directories skipped when "
                       "for_dir; result sorted; unquoted names go through escape_path, quoted ones through wrap_sep_string")
@@ -42,6 +44,11 @@ def run(ctx):
         class_rule(ctx, crate)
         quote_rule(ctx, crate)
         candidate_rule(ctx, crate)
+        from .. import ispace
+        if ctx.require(crate.fn("completers::escaped_word_start") is not None, "R20-5", "R20-5|anchor",
+                       "completers::escaped_word_start not found"):
+            n = ispace.rule(ctx, crate, "R20-5", ["completers::escaped_word_start"])
+            ctx.floor("R20-5", crate, "index-space obligations", n, 2)
     ctx.notes.append("completers exist only in the bin crate; the lib crate has no instance of these rules")
 
 
